@@ -157,12 +157,23 @@ def bad(x, l):
 '''
 
 G_SRC = '''\
+import builtins as _b
+
 K = 1000
 OUT = None
 
 
 def helper(x):
   return x * 2
+
+
+# this namespace shadows builtins the pool bodies call
+def len(x):
+  return 100 + _b.len(x)
+
+
+def range(n):
+  return _b.range(n + 1)
 '''
 
 VER_SRC = '''\
@@ -398,7 +409,9 @@ def _wrap_transform_ast(klass):
   def transform_ast(self, node, ctx):
     res = orig(self, node, ctx)
     act = COUNT['active']
-    if act is not None and id(self) in act['real']:
+    if act is not None:
+      # (every conversion in the run child belongs to the system under test:
+      # references are computed in other processes)
       st = act['by_thread'].get(_thread.get_ident())
       if st:
         st[-1][1] += 1
@@ -412,7 +425,7 @@ def _wrap_transform_function(klass):
 
   def transform_function(self, fn, user_context):
     act = COUNT['active']
-    if act is None or id(self) not in act['real']:
+    if act is None:
       return orig(self, fn, user_context)
     ident = _thread.get_ident()
     st = act['by_thread'].setdefault(ident, [])
